@@ -150,7 +150,8 @@ func factsOf(d *types.BlockDetail, parentState []byte) blockFacts {
 			seen[from]++
 			seen[to]++
 		}
-		if d.Receipts[i].Ty != types.ExecOk {
+		// a plain "none" (notary) transaction is never executed and always carries an ExecPack receipt: not a failure
+		if d.Receipts[i].Ty != types.ExecOk && string(tx.Execer) != "none" {
 			f.failed = true
 			if tx.GroupCount > 0 {
 				f.groupFailed = true
@@ -366,16 +367,13 @@ func runCase(c chainCase, tol tolerance) (fail string, nonTrivial bool) {
 	return "", nonTrivial
 }
 
-// touched lists the from / to addresses of the block's transactions (sorted, distinct).
+// touched picks the (at most two) addresses that are also observed through the node's API: sender and receiver of the
+// block's first transaction.
 func touched(d *types.BlockDetail) []string {
-	set := map[string]bool{}
-	for _, tx := range d.Block.Txs {
-		set[tx.From()] = true
-		set[tx.GetRealToAddr()] = true
-	}
-	var out []string
-	for a := range set {
-		out = append(out, a)
+	tx := d.Block.Txs[0]
+	out := []string{tx.From()}
+	if to := tx.GetRealToAddr(); to != out[0] {
+		out = append(out, to)
 	}
 	sort.Strings(out)
 	return out
@@ -455,8 +453,8 @@ func genSimple(t *rapid.T, free bool, label string) txSpec {
 			s.To = rapid.IntRange(0, nTargets()-1).Draw(t, label+"to")
 		}
 	case "toexec", "withdraw":
-		s.Amount = rapid.SampledFrom(amounts).Draw(t, label+"amount")
-		s.Exec = rapid.SampledFrom(execNames).Draw(t, label+"exec")
+		s.Amount = rapid.SampledFrom([]int64{1, 1e5, 1e7, 1e8, 1e12}).Draw(t, label+"amount")
+		s.Exec = rapid.SampledFrom(execNames[:2]).Draw(t, label+"exec")
 	case "none":
 		s.To = rapid.IntRange(0, nTargets()-1).Draw(t, label+"to")
 		s.Value = rapid.SampledFrom([]string{"", "x", "payload"}).Draw(t, label+"payload")
@@ -483,6 +481,9 @@ func genCase(t *rapid.T) chainCase {
 				if rapid.IntRange(0, 9).Draw(t, "fund") < 7 {
 					specs = append(specs, txSpec{Kind: "transfer", From: 0, To: k, Fee: 1e5,
 						Amount: rapid.SampledFrom(fundAmounts).Draw(t, "fundAmount")})
+					if rapid.Bool().Draw(t, "deposit") { // ... and lets it deposit into an executor, so that withdrawals can succeed
+						specs = append(specs, txSpec{Kind: "toexec", From: k, Exec: rapid.SampledFrom(execNames[:2]).Draw(t, "depositExec"), Fee: 1e5, Amount: 1e7})
+					}
 				}
 			}
 		}
